@@ -763,6 +763,25 @@ def write_evidence(prop, tier, seed, hs, results, violations, known_lines, wall,
         json.dump(ev, f, indent=1)
 
 
+def structural_eq_check(hs):
+    """The scanner induction compares states with the scanners' PartialEq, which must be the derived
+    (structural) one. A hand-written impl would make equal-looking states behave differently, so it
+    is looked for textually and reported as inconclusive (never as a violation)."""
+    if not any(h.body.split("::")[0] in ("cc14", "pnm", "poll") for h in hs):
+        return []
+    import glob
+    notes = []
+    for f in glob.glob(os.path.join(REPO, "src", "*scanner.rs")):
+        try:
+            src = open(f).read()
+        except OSError:
+            continue
+        if re.search(r"impl\s+(?:core::cmp::|std::cmp::)?PartialEq\b[^{]*\bfor\b", src):
+            notes.append("%s contains a hand-written PartialEq impl: the state comparison of the "
+                         "scanner induction is no longer known to be structural" % os.path.basename(f))
+    return notes
+
+
 def check_property(prop, tier, seed, jobs, use_cache, only):
     t0 = time.time()
     if prop not in registry.PROPS:
@@ -775,6 +794,7 @@ def check_property(prop, tier, seed, jobs, use_cache, only):
         log("no harnesses selected for %s" % prop)
         return 2
     log("== %s tier=%s seed=%d: %d harnesses, repo=%s" % (prop, tier, seed, len(hs), REPO))
+    pre_notes = structural_eq_check(hs)
     logdir = os.path.join(BUILD, "logs", prop)
     results = run_all(hs, jobs, use_cache, logdir)
     violations = []
@@ -844,6 +864,9 @@ def check_property(prop, tier, seed, jobs, use_cache, only):
         log("  native(dev): %s %s" % (nat.get("outcome"), (nat.get("message") or "")[:300]))
         log("VIOLATION property=%s replay=%s" % (prop, path))
     for w in inconclusive:
+        log("INCONCLUSIVE " + w)
+    inconclusive.extend(pre_notes)
+    for w in pre_notes:
         log("INCONCLUSIVE " + w)
     wall = time.time() - t0
     notes = {"inconclusive": inconclusive, "other_property_failures": others}
